@@ -115,61 +115,32 @@ type vh13Conn struct {
 	tag  uint16
 }
 
-func (v *vh13Conn) rpc(typ byte, body []byte) (byte, []byte, uint32, error) {
+// rpc: errk 0 answered, 1 connection lost / unreadable reply, 2 no answer within the deadline
+func (v *vh13Conn) rpc(typ byte, body []byte) (byte, []byte, uint32, int) {
 	v.tag++
 	if _, err := v.c.Write(vhFrame(typ, v.tag, body)); err != nil {
-		return 0, nil, 0, err
+		return 0, nil, 0, 1
 	}
-	v.c.SetReadDeadline(time.Now().Add(10 * time.Second))
+	v.c.SetReadDeadline(time.Now().Add(15 * time.Second))
+	kind := func(err error) int {
+		if ne, ok := err.(net.Error); ok && ne.Timeout() {
+			return 2
+		}
+		return 1
+	}
 	var hdr [7]byte
 	if _, err := io.ReadFull(v.c, hdr[:]); err != nil {
-		return 0, nil, 0, err
+		return 0, nil, 0, kind(err)
 	}
 	size := binary.LittleEndian.Uint32(hdr[:])
 	if size < 7 || size > 64<<20 {
-		return hdr[4], nil, size, io.ErrUnexpectedEOF
+		return hdr[4], nil, size, 1
 	}
 	rb := make([]byte, size-7)
 	if _, err := io.ReadFull(v.c, rb); err != nil {
-		return hdr[4], nil, size, err
+		return hdr[4], nil, size, kind(err)
 	}
-	return hdr[4], rb, size, nil
-}
-
-// vh13Session: Tversion(msize), attach, walk+open the file (fid 1) and the directory (fid 2).
-func vh13Session(fs *vh13FS, msize uint32) (*vh13Conn, uint32, bool) {
-	a, b, err := vh02SocketPair()
-	if err != nil {
-		panic(err)
-	}
-	srv := NewServer(&vh13File{fs: fs})
-	v := &vh13Conn{c: a, done: make(chan struct{})}
-	go func() { srv.Handle(b, b); close(v.done) }()
-	body := vhPutString(vhLE32(msize), "9P2000.L.Google.7")
-	typ, rb, _, err := v.rpc(byte(msgTversion), body)
-	if err != nil || typ != byte(msgRversion) || len(rb) < 4 {
-		return v, 0, false
-	}
-	ann := binary.LittleEndian.Uint32(rb)
-	att := append(vhLE32(0), vhLE32(uint32(noFID))...)
-	att = vhPutString(att, "")
-	att = vhPutString(att, "")
-	att = append(att, vhLE32(0)...)
-	if typ, _, _, err = v.rpc(byte(msgTattach), att); err != nil || typ != byte(msgRattach) {
-		return v, ann, false
-	}
-	for i, name := range []string{"f", "d"} {
-		w := append(vhLE32(0), vhLE32(uint32(i+1))...)
-		w = append(w, vhLE16(1)...)
-		w = vhPutString(w, name)
-		if typ, _, _, err = v.rpc(byte(msgTwalk), w); err != nil || typ != byte(msgRwalk) {
-			return v, ann, false
-		}
-		if typ, _, _, err = v.rpc(byte(msgTlopen), append(vhLE32(uint32(i+1)), vhLE32(0)...)); err != nil || typ != byte(msgRlopen) {
-			return v, ann, false
-		}
-	}
-	return v, ann, true
+	return hdr[4], rb, size, 0
 }
 
 func (v *vh13Conn) close() {
@@ -179,6 +150,108 @@ func (v *vh13Conn) close() {
 	case <-time.After(10 * time.Second):
 	}
 }
+
+type vh13TV struct {
+	MSize uint32 `json:"msize"`
+	OK    bool   `json:"ok"` // acceptable version string
+}
+
+// vh13S: a connection to a real Server on which a history of Tversions has been played; the first is
+// followed by attach, walk+open of the file (fid 1) and the directory (fid 2) and, if the backend has
+// an xattr value, Txattrwalk (fid 3); the later Tversions come after that.
+type vh13S struct {
+	fs        *vh13FS
+	hist      []vh13TV
+	v         *vh13Conn
+	announced []uint32 // msize of every Rversion received
+	ann       uint32   // the last one that announced an msize
+	ok        bool
+	stalls    int
+}
+
+func (s *vh13S) version(t vh13TV) bool {
+	ver := "9P2000.L.Google.7"
+	if !t.OK {
+		ver = "9P1999.bogus"
+	}
+	typ, rb, _, ek := s.v.rpc(byte(msgTversion), vhPutString(vhLE32(t.MSize), ver))
+	if ek != 0 || typ != byte(msgRversion) || len(rb) < 4 {
+		return false
+	}
+	m := binary.LittleEndian.Uint32(rb)
+	s.announced = append(s.announced, m)
+	if m != 0 {
+		s.ann = m
+	}
+	return true
+}
+
+func (s *vh13S) open() {
+	s.ok = false
+	s.announced = nil
+	s.ann = 0
+	a, b, err := vh02SocketPair()
+	if err != nil {
+		panic(err)
+	}
+	srv := NewServer(&vh13File{fs: s.fs})
+	s.v = &vh13Conn{c: a, done: make(chan struct{})}
+	v := s.v
+	go func() { srv.Handle(b, b); close(v.done) }()
+	if !s.version(s.hist[0]) {
+		return
+	}
+	att := append(vhLE32(0), vhLE32(uint32(noFID))...)
+	att = vhPutString(att, "")
+	att = vhPutString(att, "")
+	att = append(att, vhLE32(0)...)
+	if typ, _, _, ek := v.rpc(byte(msgTattach), att); ek != 0 || typ != byte(msgRattach) {
+		return
+	}
+	for i, name := range []string{"f", "d"} {
+		w := append(vhLE32(0), vhLE32(uint32(i+1))...)
+		w = append(w, vhLE16(1)...)
+		w = vhPutString(w, name)
+		if typ, _, _, ek := v.rpc(byte(msgTwalk), w); ek != 0 || typ != byte(msgRwalk) {
+			return
+		}
+		if typ, _, _, ek := v.rpc(byte(msgTlopen), append(vhLE32(uint32(i+1)), vhLE32(0)...)); ek != 0 || typ != byte(msgRlopen) {
+			return
+		}
+	}
+	if s.fs.xattr != nil {
+		w := append(vhLE32(1), vhLE32(3)...)
+		w = vhPutString(w, "v")
+		if typ, _, _, ek := v.rpc(byte(msgTxattrwalk), w); ek != 0 || typ != byte(msgRxattrwalk) {
+			return
+		}
+	}
+	for _, t := range s.hist[1:] {
+		if !s.version(t) {
+			return
+		}
+	}
+	s.ok = true
+}
+
+// do sends one request.  "Blocked" is only concluded in the direction model-says-it-returns, and only
+// after the same request went unanswered on three fresh connections (15 s each).
+func (s *vh13S) do(typ byte, body []byte) (byte, []byte, uint32, int) {
+	for try := 0; ; try++ {
+		rt, rb, size, ek := s.v.rpc(typ, body)
+		if ek != 2 {
+			return rt, rb, size, ek
+		}
+		s.stalls++
+		s.v.close()
+		s.open()
+		if try == 2 || !s.ok {
+			return rt, rb, size, 2
+		}
+	}
+}
+
+func vh13Hist(h []vh13TV) []vh13TV { return append([]vh13TV{}, h...) }
 
 func vh13Counts(m uint32) []uint32 {
 	c := []uint32{0, 1, 12, m - 12, m - 11, m - 10, m - 1, m, m + 1, maximumLength - 11, maximumLength, maximumLength + 1, 1<<32 - 1, m / 2}
@@ -193,12 +266,101 @@ func vh13Counts(m uint32) []uint32 {
 	return out
 }
 
+func vh13Errno(typ byte, rb []byte) int {
+	if typ == byte(msgRlerror) && len(rb) >= 4 {
+		return int(binary.LittleEndian.Uint32(rb))
+	}
+	return 0
+}
+
+// vh13Reads: Tread on the file and on the xattr fid, Treaddir, for the given counts, on one session.
+func vh13Reads(o *vhOut, id *int, s *vh13S, counts []uint32, offs []uint64) {
+	emit := func(rec map[string]interface{}) {
+		*id++
+		rec["id"] = *id
+		rec["hist"] = vh13Hist(s.hist)
+		rec["ann"] = s.ann
+		rec["stalls"] = s.stalls
+		o.Emit(rec)
+	}
+	for _, cnt := range counts {
+		for _, off := range offs {
+			if !s.ok {
+				return
+			}
+			if s.fs.xattr != nil {
+				body := append(vhLE32(3), vhLE64(off)...)
+				body = append(body, vhLE32(cnt)...)
+				typ, rb, size, ek := s.do(byte(msgTread), body)
+				rec := map[string]interface{}{"kind": "sxread", "count": cnt, "off": off, "vlen": len(s.fs.xattr),
+					"rtype": int(typ), "rsize": size, "rcount": -1, "err": ek, "errno": vh13Errno(typ, rb)}
+				if ek == 0 && typ == byte(msgRread) && len(rb) >= 4 {
+					rec["rcount"] = binary.LittleEndian.Uint32(rb)
+				}
+				emit(rec)
+				continue
+			}
+			if s.fs.names == nil {
+				if off > 1<<40 {
+					continue
+				}
+				body := append(vhLE32(1), vhLE64(off)...)
+				body = append(body, vhLE32(cnt)...)
+				s.fs.lastRead = -1
+				typ, rb, size, ek := s.do(byte(msgTread), body)
+				rec := map[string]interface{}{"kind": "sread", "count": cnt, "fsize": s.fs.fsize, "off": off,
+					"rtype": int(typ), "rsize": size, "rcount": -1, "err": ek, "errno": vh13Errno(typ, rb), "asked": s.fs.lastRead}
+				if ek == 0 && typ == byte(msgRread) && len(rb) >= 4 {
+					rec["rcount"] = binary.LittleEndian.Uint32(rb)
+				}
+				emit(rec)
+				continue
+			}
+			if off != 0 {
+				continue
+			}
+			body := append(vhLE32(2), vhLE64(0)...)
+			body = append(body, vhLE32(cnt)...)
+			typ, rb, size, ek := s.do(byte(msgTreaddir), body)
+			rec := map[string]interface{}{"kind": "sreaddir", "count": cnt, "honour": s.fs.honour, "nent": len(s.fs.names),
+				"sizes": s.fs.lastRet, "rtype": int(typ), "rsize": size, "rcount": -1, "err": ek}
+			if ek == 0 && typ == byte(msgRreaddir) && len(rb) >= 4 {
+				rec["rcount"] = binary.LittleEndian.Uint32(rb)
+			}
+			emit(rec)
+		}
+	}
+}
+
+func vh13Names(nent int) []string {
+	names := make([]string, nent)
+	for i := range names {
+		names[i] = "e" + string(rune('a'+i%26)) + string(make([]byte, (i*7)%13))
+	}
+	return names
+}
+
+func vh13Run(o *vhOut, id *int, fs *vh13FS, hist []vh13TV, counts []uint32, offs []uint64) {
+	s := &vh13S{fs: fs, hist: hist}
+	s.open()
+	*id++
+	if !s.ok {
+		o.Emit(map[string]interface{}{"kind": "ssetup", "id": *id, "hist": hist, "ok": false})
+		s.v.close()
+		return
+	}
+	o.Emit(map[string]interface{}{"kind": "shist", "id": *id, "hist": hist, "announced": s.announced})
+	vh13Reads(o, id, s, counts, offs)
+	s.v.close()
+}
+
 func vh13Server(o *vhOut, thorough bool) {
 	msizes := []uint32{23, 24, 34, 35, 64, 153, 154, 665, 4096, 65536, maximumLength, 1<<32 - 1}
 	if !thorough {
 		msizes = []uint32{23, 35, 154, 4096, 65536, maximumLength, 1<<32 - 1}
 	}
 	id := 0
+	one := func(m uint32) []vh13TV { return []vh13TV{{m, true}} }
 	for _, req := range msizes {
 		eff := req
 		if eff > maximumLength {
@@ -212,81 +374,25 @@ func vh13Server(o *vhOut, thorough bool) {
 			if fsz < 0 {
 				continue
 			}
-			fs := &vh13FS{fsize: fsz}
-			v, ann, ok := vh13Session(fs, req)
-			if !ok {
-				id++
-				o.Emit(map[string]interface{}{"kind": "ssetup", "id": id, "req": req, "ann": ann, "ok": false})
-				v.close()
-				continue
-			}
-			for _, cnt := range vh13Counts(eff) {
-				for _, off := range []uint64{0, 7} {
-					if off > 0 && cnt%5 != 0 {
-						continue
-					}
-					body := append(vhLE32(1), vhLE64(off)...)
-					body = append(body, vhLE32(cnt)...)
-					fs.lastRead = -1
-					typ, rb, size, err := v.rpc(byte(msgTread), body)
-					id++
-					rec := map[string]interface{}{"kind": "sread", "id": id, "req": req, "ann": ann, "count": cnt, "fsize": fsz, "off": off,
-						"rtype": int(typ), "rsize": size, "rcount": -1, "err": err != nil, "asked": fs.lastRead}
-					if err == nil && typ == byte(msgRread) && len(rb) >= 4 {
-						rec["rcount"] = binary.LittleEndian.Uint32(rb)
-						rec["bodylen"] = len(rb) - 4
-					}
-					o.Emit(rec)
-					if err != nil {
-						break
-					}
-				}
-			}
-			v.close()
+			vh13Run(o, &id, &vh13FS{fsize: fsz}, one(req), vh13Counts(eff), []uint64{0, 7})
 		}
-		// Tread on an xattr fid: values around msize-11, counts up to the value length and beyond
+		// Tread on an xattr fid: values around msize-11, counts up to the value length and beyond,
+		// offsets up to 2^64-1 (Offset+Count wrapping in 64 bits)
 		if eff <= 1<<20 || thorough {
 			vlens := []int64{0, 5, int64(eff) - 12, int64(eff) - 11, int64(eff) - 10, int64(eff), int64(eff) + 50, 2 * int64(eff)}
 			if !thorough {
-				vlens = []int64{0, int64(eff) - 11, int64(eff), int64(eff) + 50}
+				vlens = []int64{0, 10, int64(eff) - 11, int64(eff), int64(eff) + 50}
 			}
 			for _, vl := range vlens {
 				if vl < 0 || vl > int64(maximumLength) { // Txattrwalk refuses values above maximumLength (EINVAL)
 					continue
 				}
-				fs := &vh13FS{xattr: make([]byte, vl)}
-				v, ann, ok := vh13Session(fs, req)
-				if !ok {
-					v.close()
-					continue
+				counts := append(vh13Counts(eff), uint32(vl), uint32(vl)+1, uint32(vl)-7, 2)
+				offs := []uint64{0, 7, uint64(vl), uint64(vl) + 1, 1<<64 - 1, 1<<64 - 2, 1<<64 - uint64(eff), 1<<63 + 3, 1<<32 + 1}
+				if !thorough {
+					offs = []uint64{0, 7, uint64(vl) + 1, 1<<64 - 1, 1<<64 - 2, 1<<64 - uint64(eff)}
 				}
-				w := append(vhLE32(1), vhLE32(3)...)
-				w = vhPutString(w, "v")
-				if typ, _, _, err := v.rpc(byte(msgTxattrwalk), w); err != nil || typ != byte(msgRxattrwalk) {
-					id++
-					o.Emit(map[string]interface{}{"kind": "ssetup", "id": id, "req": req, "ann": ann, "ok": false})
-					v.close()
-					continue
-				}
-				counts := append(vh13Counts(eff), uint32(vl), uint32(vl)+1, uint32(vl)-7)
-				for _, cnt := range counts {
-					for _, off := range []uint64{0, 7} {
-						body := append(vhLE32(3), vhLE64(off)...)
-						body = append(body, vhLE32(cnt)...)
-						typ, rb, size, err := v.rpc(byte(msgTread), body)
-						id++
-						rec := map[string]interface{}{"kind": "sxread", "id": id, "req": req, "ann": ann, "count": cnt, "off": off, "vlen": vl,
-							"rtype": int(typ), "rsize": size, "rcount": -1, "err": err != nil}
-						if err == nil && typ == byte(msgRread) && len(rb) >= 4 {
-							rec["rcount"] = binary.LittleEndian.Uint32(rb)
-						}
-						o.Emit(rec)
-						if err != nil {
-							break
-						}
-					}
-				}
-				v.close()
+				vh13Run(o, &id, &vh13FS{xattr: make([]byte, vl)}, one(req), counts, offs)
 			}
 		}
 		// directories: entry names of mixed lengths; total size on both sides of the limit
@@ -295,35 +401,52 @@ func vh13Server(o *vhOut, thorough bool) {
 				if nent > 6000 && !(thorough && nent < 200000) {
 					nent = 6000
 				}
-				names := make([]string, nent)
-				for i := range names {
-					names[i] = "e" + string(rune('a'+i%26)) + string(make([]byte, (i*7)%13))
-				}
-				fs := &vh13FS{names: names, honour: honour}
-				v, ann, ok := vh13Session(fs, req)
-				if !ok {
-					v.close()
-					continue
-				}
-				for _, cnt := range vh13Counts(eff) {
-					body := append(vhLE32(2), vhLE64(0)...)
-					body = append(body, vhLE32(cnt)...)
-					typ, rb, size, err := v.rpc(byte(msgTreaddir), body)
-					id++
-					rec := map[string]interface{}{"kind": "sreaddir", "id": id, "req": req, "ann": ann, "count": cnt, "honour": honour, "nent": nent,
-						"sizes": fs.lastRet, "rtype": int(typ), "rsize": size, "rcount": -1, "err": err != nil}
-					if err == nil && typ == byte(msgRreaddir) && len(rb) >= 4 {
-						rec["rcount"] = binary.LittleEndian.Uint32(rb)
-						rec["bodylen"] = len(rb) - 4
-					}
-					o.Emit(rec)
-					if err != nil {
-						break
-					}
-				}
-				v.close()
+				vh13Run(o, &id, &vh13FS{names: vh13Names(nent), honour: honour}, one(req), vh13Counts(eff), []uint64{0})
 			}
 		}
+	}
+	// renegotiation: several Tversions on one connection (smaller, larger, refused ones in between);
+	// the bound is the msize of the LAST Rversion that announced one
+	hists := [][]vh13TV{
+		{{65536, true}, {4096, true}},
+		{{4096, true}, {65536, true}},
+		{{65536, true}, {4096, false}, {1024, true}},
+		{{65536, true}, {0, true}, {256, true}},
+		{{8192, true}, {256, true}, {4096, true}},
+		{{maximumLength, true}, {64, true}},
+		{{1024, true}, {1<<32 - 1, true}},
+		{{65536, true}, {4096, true}, {300, false}},
+		{{512, true}, {512, true}},
+	}
+	if thorough {
+		hists = append(hists, [][]vh13TV{
+			{{65536, true}, {65535, true}, {65534, true}}, {{100, true}, {99, true}}, {{maximumLength, true}, {maximumLength + 1, true}, {35, true}},
+			{{65536, false}, {4096, true}}, {{4096, true}, {0, false}, {8192, true}, {153, true}},
+		}...)
+	}
+	for _, h := range hists {
+		var counts []uint32
+		seen := map[uint32]bool{}
+		add := func(xs ...uint32) {
+			for _, x := range xs {
+				if !seen[x] {
+					seen[x] = true
+					counts = append(counts, x)
+				}
+			}
+		}
+		for _, t := range h { // counts around EVERY msize of the history, not only the last
+			m := t.MSize
+			if m > maximumLength {
+				m = maximumLength
+			}
+			add(m-12, m-11, m-10, m, m+1)
+		}
+		add(0, 1, 60000, maximumLength, 1<<32-1)
+		big := int64(70000)
+		vh13Run(o, &id, &vh13FS{fsize: big}, h, counts, []uint64{0, 7})
+		vh13Run(o, &id, &vh13FS{xattr: make([]byte, big)}, h, counts, []uint64{0, 1<<64 - 1})
+		vh13Run(o, &id, &vh13FS{names: vh13Names(3000), honour: false}, h, counts, []uint64{0})
 	}
 }
 
@@ -417,7 +540,22 @@ func (f *vh13Fake) serve(c net.Conn) {
 	}
 }
 
+// vh13Client: a client that stops answering is only reported after three attempts all ran into the
+// watchdog (the model says every one of these calls returns).
 func vh13Client(o *vhOut, id *int, req, announce uint32, op string, n int, avail int, short uint32) {
+	var rec map[string]interface{}
+	for try := 0; try < 3; try++ {
+		rec = vh13ClientOnce(req, announce, op, n, avail, short)
+		if rec["hang"] != true {
+			break
+		}
+	}
+	*id++
+	rec["id"] = *id
+	o.Emit(rec)
+}
+
+func vh13ClientOnce(req, announce uint32, op string, n int, avail int, short uint32) map[string]interface{} {
 	cc, sc := net.Pipe()
 	fake := &vh13Fake{announce: announce, avail: avail, short: short}
 	done := make(chan struct{})
@@ -473,7 +611,7 @@ func vh13Client(o *vhOut, id *int, req, announce uint32, op string, n int, avail
 	hang := false
 	select {
 	case out = <-ch:
-	case <-time.After(8 * time.Second):
+	case <-time.After(10 * time.Second):
 		hang = true
 		out.result = "ok"
 	}
@@ -489,8 +627,6 @@ func vh13Client(o *vhOut, id *int, req, announce uint32, op string, n int, avail
 			out.result = "ok"
 		}
 	}
-	*id++
-	rec["id"] = *id
 	rec["result"] = out.result
 	rec["hang"] = hang
 	rec["msize"] = out.msize
@@ -507,7 +643,7 @@ func vh13Client(o *vhOut, id *int, req, announce uint32, op string, n int, avail
 	rec["all"] = fake.frames
 	rec["replies"] = fake.replies
 	rec["answers"] = fake.answers
-	o.Emit(rec)
+	return rec
 }
 
 func TestVerifC13(t *testing.T) {
